@@ -678,6 +678,27 @@ def equality_facts(fn, at_block):
     return facts
 
 
+def range_helper_param(g):
+    """k such that every `a..b` the function builds is proved to lie inside its k-th parameter (a slice), else None"""
+    from .mir import Fn as _Fn
+    if "ops::Range<usize>" not in g.locals[0]:
+        return None
+    sites = []
+    for bi in g.reachable():
+        for st in g.stmts(bi):
+            rv = st.get("rv", {})
+            if rv.get("k") == "agg" and rv.get("agg") == "adt" and rv["adt"].endswith("ops::Range"):
+                sites.append((bi, None, ("range", rv["ops"][0], rv["ops"][1])))
+    if not sites:
+        return None
+    for k in range(1, g.argc + 1):
+        if not re.search(r"\[u8\]|Vec<u8>", g.locals[k]):
+            continue
+        if all(bounds_proved(g, k, s_)[0] for s_ in sites):
+            return k
+    return None
+
+
 def slice_sites(fn, base_local):
     """[(bb, term, kind, start_op, end_op)] for Index/IndexMut on data derived from base_local"""
     out = []
@@ -689,10 +710,18 @@ def slice_sites(fn, base_local):
     return out
 
 
-def bounds_proved(fn, base_local, site):
+def bounds_proved(fn, base_local, site, summary=None):
     """Is the slice at `site` dominated by an enforced comparison against base.len() that implies
     the slice's bound is within the length?  Returns (ok, detail)."""
     bi, t, rb = site
+    if rb is None and summary is not None and t is not None:
+        # the range comes out of a helper that checks it against the length of the slice it is given
+        for a in fn.origins(t["args"][1], deep=True):
+            if a[0] == "call" and len(a) > 2:
+                k = summary(a[1])
+                ct = fn.term(a[2])
+                if k is not None and k - 1 < len(ct["args"]) and ("arg", base_local) in fn.origins(ct["args"][k - 1], deep=True) and fn.dominates(a[2], bi):
+                    return True, "range produced by %s, which returns only ranges inside its slice argument" % a[1].split("::")[-1]
     if rb is None:
         return False, "index operand is not a range expression (element indexing or computed range)"
     kind, st, en = rb
